@@ -119,6 +119,19 @@ def haar(rng, n=None):
     return m[0] if n is None else m
 
 
+def aligned_bases():
+    """the 24 proper signed permutation matrices: every crystal axis (row) along +-x, +-y or +-z"""
+    ms = []
+    for perm in itertools.permutations(range(3)):
+        for sg in itertools.product((1.0, -1.0), repeat=3):
+            m = np.zeros((3, 3))
+            for i, (p, g) in enumerate(zip(perm, sg)):
+                m[i, p] = g
+            if np.linalg.det(m) > 0:
+                ms.append(m)
+    return ms
+
+
 def texture(rng, kind, n):
     from scipy.spatial.transform import Rotation
     if kind == "random":
@@ -135,15 +148,7 @@ def texture(rng, kind, n):
         noise = Rotation.from_rotvec(rng.normal(0, 0.05, (n, 3)))
         return (noise * spin * base).as_matrix()
     if kind == "aligned":     # grains exactly aligned with the reference axes (signed axis permutations)
-        import itertools
-        ms = []
-        for perm in itertools.permutations(range(3)):
-            for sg in itertools.product((1.0, -1.0), repeat=3):
-                m = np.zeros((3, 3))
-                for i, (p, g) in enumerate(zip(perm, sg)):
-                    m[i, p] = g
-                if np.linalg.det(m) > 0:
-                    ms.append(m)
+        ms = aligned_bases()
         base = ms[int(rng.integers(len(ms)))]
         return np.repeat(base[None], n, axis=0)
     if kind == "isotropic3":  # scatter matrix exactly the identity: excluded from coaxial_index
@@ -466,6 +471,15 @@ def search(chk, extra=()):
         for n in (1, 2, 5, 30):
             for ax in AXES:
                 pool.append((texture(rng, kind, n), ax, AXES[(AXCODE[ax] + 1) % 3]))
+    # exactly axis-aligned textures, systematically: each of the 24 proper signed axis permutations
+    # (every crystal axis along every reference axis, both senses) x all three crystal axes,
+    # as a single-orientation texture and mixed with a second aligned orientation
+    bases = aligned_bases()
+    for k, base in enumerate(bases):
+        other = bases[(7 * k + 5) % len(bases)]
+        for ax in AXES:
+            pool.append((np.repeat(base[None], 3, axis=0), ax, AXES[(AXCODE[ax] + 1) % 3]))
+            pool.append((np.stack([base, base, other]), ax, AXES[(AXCODE[ax] + 2) % 3]))
     for os, ax, ax2 in pool:
         fails = oracle_texture(dg, os, ax, ax2, np.random.default_rng(chk.seed + 2))
         if fails:
